@@ -178,10 +178,10 @@ func runSema(seed int64, trace []int32) *result {
 func runNotify(seed int64, trace []int32) *result {
 	r := rand.New(rand.NewSource(seed*1000003 + 9))
 	res := &result{kind: "notify"}
-	nw := 1 + r.Intn(4)       // waiters
-	rounds := 1 + r.Intn(2)   // waits per waiter
-	nn := 1 + r.Intn(2)       // notifier threads
-	mode := r.Intn(3)         // 0 one, 1 all, 2 mixed
+	nw := 1 + r.Intn(4)     // waiters
+	rounds := 1 + r.Intn(2) // waits per waiter
+	nn := 1 + r.Intn(2)     // notifier threads
+	mode := r.Intn(3)       // 0 one, 1 all, 2 mixed
 	ncalls := r.Intn(nw*rounds + 2)
 	var l rtl.NotifyList
 	if r.Intn(4) == 0 {
